@@ -349,7 +349,7 @@ impl St {
                 Ok(m) => format!("filelen:{}", m.len()),
                 Err(e) => format!("filelen:ERR:{}", e),
             },
-            "filehash" => match std::fs::read(&self.path) {
+            "filehash" | "filehash=" => match std::fs::read(&self.path) {
                 Ok(b) => format!("filehash:{:016x}", fnv64(&b)),
                 Err(e) => format!("filehash:ERR:{}", e),
             },
